@@ -22,9 +22,13 @@ pub fn configs(thorough: bool) -> Vec<EpCfg> {
                     c.window = if thorough { 3 } else { 2 };
                     c.alph = session_alph(ver == Ver::V5, if thorough { 3 } else { 2 });
                     c.alph.second_connack = true;
+                    c.alph.peer_disconnect = true;
+                    c.alph.after_disconnect = true;
                     c.alph.erase = true;
                     c.alph.defer_pubrel = true;
                     c.alph.send_fail = thorough;
+                    // a refused connection attempt (failure CONNACK sent or received) leaves the session alone
+                    c.connacks.push(AckProf { ok: false, ..AckProf::basic(false) });
                     c.groups = vec!["c06"];
                     v.push(c);
                 }
